@@ -174,6 +174,16 @@ def main():
                     x = [rng.randrange(max(2, n // 5)) for _ in range(n)]
                 y = [(v + rng.randrange(2)) % 4 for v in x]
                 big.append((fam, n, rr, y, x))
+    # exact-division boundaries: for every number of distinct target values nv, budgets floor(r*n) that are exact multiples of nv
+    # (the quota floor(floor(r*n) / nv) must be taken exactly)
+    for nv in (range(2, 130) if tier == 'quick' else range(2, 400)):
+        for mult in (1, 2):
+            n = nv * 10 * mult
+            if final_of(0.1, n) != nv * mult:
+                continue
+            x = [(i * 7 + i // nv) % nv for i in range(n)]
+            y = [(v + (i % 3 == 0)) % 5 for i, v in enumerate(x)]
+            big.append((f'exact-multiple-nv{nv}', n, 0.1, y, x))
     sgot, scr = MC.real_eval('sample', [[list(range(len(x))), x, rr] for _, _, rr, y, x in big], poison=MC.POISONS, stride=True)
     for idx, rc, err in scr:
         fam, n, rr, y, x = big[idx]
@@ -191,7 +201,7 @@ def main():
             if sorted(ys) != sorted(S) or any(not (0 <= i < n) or xs[j] != x[i] for j, i in enumerate(ys)):
                 V.violation(f'sample:large:{fam}:n={n}:r={rr}', f'stratified_subsampling gathered {len(ys)} rows, specified sample has {len(S)} rows (or different rows)',
                             {'family': fam, 'n': n, 'r': rr, 'seed': seed, 'Y': y[:400], 'X': x[:400]})
-            if n <= 300:
+            if n <= 300 and not fam.startswith('exact-multiple'):
                 # recover the row indices the real code gathered: rows are identified by (x value, rank within value)
                 recs.append({'x': x, 'final': fin, 'rows': [i + 1 for i in S], 'n': n, 'r': rr})
         tf = os.path.join(wd, 's.ndjson')
